@@ -2,6 +2,7 @@ import Rare.Proofs.AggLoop
 import Rare.Proofs.Pipeline
 import Rare.Model.Lockset
 import Rare.Proofs.Lockset
+import Rare.Proofs.LocksetHB
 import Rare.Model.PipelineSkeleton
 import Rare.Gen.Skeleton
 import Rare.Proofs.AggLoopTrace
@@ -197,6 +198,32 @@ theorem lockset_census_classified :
     Gen.Access.census.all (fun p => p.2 != "unclassified") = true ∧
     Gen.Access.extractorInstanceConfined = true ∧ Gen.Access.typeErrors = [] := by
   refine ⟨by decide +kernel, rfl, rfl⟩
+
+/-- The step from "both accesses hold the same mutex" to "ordered by happens-before", which the reading of
+    `lockset_ok` rests on, proved over an abstract trace semantics of exclusive mutexes (Proofs/LocksetHB:
+    events of a sequentially consistent interleaving, `Exec` = sync.Mutex semantics, `HB` = transitive
+    closure of program order and Unlock→later Lock): if every access to a location is made while the
+    accessing thread holds the location's guard, no two conflicting accesses of different threads are
+    unordered – the execution has no data race.  (Not covered by this model: RWMutex, atomics, `go` and
+    channel edges; the link from "lock held at the site" in the table to `hs k (guard x) = some tid` is the
+    syntactic must-hold analysis.) -/
+theorem lockset_mutex_rule_sound {tr : List Lockset.HB.Ev} {hs : Nat → Lockset.HB.Holders}
+    (hex : Lockset.HB.Exec tr hs) (guard : Nat → Nat)
+    (hdisc : ∀ k e x w, tr[k]? = some e → e.op = .acc x w → hs k (guard x) = some e.tid) :
+    ¬ Lockset.HB.Race tr :=
+  Lockset.HB.lockset_no_race hex guard hdisc
+
+/-- … and the two accesses of any such pair are ordered whichever mutex it is they share. -/
+theorem lockset_mutex_orders {tr : List Lockset.HB.Ev} {hs : Nat → Lockset.HB.Holders}
+    (hex : Lockset.HB.Exec tr hs) {i j : Nat} {a b : Lockset.HB.Ev} (hij : i < j)
+    (ha : tr[i]? = some a) (hb : tr[j]? = some b) {m : Nat}
+    (h1 : hs i m = some a.tid) (h2 : hs j m = some b.tid) : Lockset.HB.HB tr i j :=
+  Lockset.HB.mutex_orders hex hij ha hb h1 h2
+
+/-- Non-vacuity: two threads that each lock, write the same location and unlock form an execution that
+    satisfies the hypotheses. -/
+example : ¬ Lockset.HB.Race Lockset.HB.demo :=
+  lockset_mutex_rule_sound Lockset.HB.demo_exec (fun _ => 0) Lockset.HB.demo_disc
 
 /-- Non-vacuity of `lockset_ok`: the Batcher table with the one record the seeded change
     C05-status-unlocked-join produces (the active-file list read through a local alias after `Unlock`)
